@@ -49,9 +49,9 @@ fn other_key(pool: &[KeyInfo], r: &mut Rng, avoid: &[usize]) -> usize {
 /// Inject one fault of the family relevant to `prop` into a valid scenario.
 fn inject(prop: &str, s: &mut Scenario, r: &mut Rng, pool: &[KeyInfo]) -> Option<Fault> {
     let kinds: &[&str] = match prop {
-        "C01" => &["caller_empty", "caller_superset", "caller_disjoint", "caller_alias", "owner_sig_missing", "owner_sig_corrupt", "owner_sig_mislabel", "layout_tampered", "not_a_layout", "extra_sig", "none"],
+        "C01" => &["caller_empty", "caller_superset", "caller_disjoint", "caller_alias", "owner_sig_missing", "owner_sig_corrupt", "owner_sig_mislabel", "owner_sig_duplicated", "owner_sig_duplicated_apart", "layout_tampered", "not_a_layout", "extra_sig", "none"],
         "C06" => &["expired_1s", "expired_long", "expires_now", "expires_plus1", "offset_notation", "offset_expired", "sub_expired", "none"],
-        "C02" => &["link_removed", "link_wrong_signer", "link_mislabel", "link_tampered", "link_corrupt", "link_unauthorized", "key_not_in_table", "link_garbage", "threshold_zero_nolinks", "threshold_zero_onelink", "threshold_raised", "link_wrong_type", "none"],
+        "C02" => &["link_removed", "link_wrong_signer", "link_mislabel", "link_tampered", "link_corrupt", "link_unauthorized", "key_not_in_table", "link_garbage", "link_cosigned_forgery", "threshold_zero_nolinks", "threshold_zero_onelink", "threshold_raised", "link_wrong_type", "none"],
         "C07" => &["disagree_product_digest", "disagree_material_path", "disagree_extra_entry", "disagree_t1", "agree_extra_differs", "none"],
         "C13" => &["differing_links_t1", "differing_links_t1_rules", "none", "link_removed"],
         "C08" => &["insp_exit", "insp_notfound", "insp_rule", "pre_expired", "pre_badsig", "pre_link_removed", "pre_rule", "pre_disagree", "none"],
@@ -96,6 +96,22 @@ fn inject(prop: &str, s: &mut Scenario, r: &mut Rng, pool: &[KeyInfo]) -> Option
             s.block.sigs[0].signer = k;
             Some(("C01", "an owner signature was made by another key".into(), true))
         }
+        "owner_sig_duplicated" | "owner_sig_duplicated_apart" => {
+            // one owner did not sign; another owner's (valid) signature appears twice instead,
+            // adjacent or with an unrelated entry in between
+            if owners.len() < 2 {
+                let k = other_key(pool, r, &owners);
+                s.caller_keys.push(k);
+            }
+            let a = s.block.sigs[0].clone();
+            s.block.sigs.truncate(1);
+            if kind == "owner_sig_duplicated_apart" {
+                let junk = other_key(pool, r, &s.caller_keys.clone());
+                s.block.sigs.push(SSig { label: junk, signer: junk, corrupt: true });
+            }
+            s.block.sigs.push(a);
+            Some(("C01", "one owner's signature is repeated in place of a missing owner signature".into(), true))
+        }
         "layout_tampered" => {
             let orig = s.block.meta.clone();
             let l = layout_mut(&mut s.block)?;
@@ -130,13 +146,13 @@ fn inject(prop: &str, s: &mut Scenario, r: &mut Rng, pool: &[KeyInfo]) -> Option
                 "expired_long" => (now - Duration::days(400 * (1 + r.below(20) as i64)), true),
                 "expires_now" => (now, false),
                 "expires_plus1" => (now + Duration::seconds(1), false),
-                "offset_notation" => (now + Duration::minutes(30), false),
-                _ => (now - Duration::minutes(30), true),
+                "offset_notation" => (now + Duration::minutes(10), false),
+                _ => (now - Duration::minutes(10), true),
             };
             l.expires = e;
             if kind.starts_with("offset") {
                 // an offset larger than the margin: a reader that ignored the offset would decide differently
-                l.offset_min = Some(*r.pick(&[-720, -90, 60, 330, 840]));
+                l.offset_min = Some(*r.pick(&[-720, -210, -90, -30, 60, 330, 345, 570, 765, 840]));
             }
             if fatal {
                 Some(("C06", format!("the layout expired ({})", kind), true))
@@ -223,6 +239,31 @@ fn inject(prop: &str, s: &mut Scenario, r: &mut Rng, pool: &[KeyInfo]) -> Option
             }
             Some((if kind.starts_with("pre_") { "C08" } else { "C02" }, format!("{} (step {})", desc, l.steps[si].name), true))
         }
+        "link_cosigned_forgery" => {
+            // threshold 2, functionaries A and B: A's file carries a bogus entry under A's id plus a
+            // valid signature by B; B's own link is honest. Only one distinct key signed validly.
+            let l = layout_mut(&mut s.block)?.clone();
+            let si = (0..l.steps.len()).find(|&i| l.steps[i].threshold >= 2 && l.steps[i].pubkeys.len() >= 2)?;
+            let need = l.steps[si].threshold as usize;
+            // keep exactly `need` evidence files
+            trim_spares(&l, &mut s.dir, si);
+            let idx = evidence_files(&s.dir, &l.steps[si].name);
+            if idx.len() < 2 || idx.len() != need {
+                return None;
+            }
+            let fa = idx[0];
+            let fname = s.dir.files[fa].0.clone();
+            let short = fname[l.steps[si].name.len() + 1..fname.len() - 5].to_string();
+            let a = *l.steps[si].pubkeys.iter().find(|&&k| prefix8(pool, k) == short)?;
+            let b = *l.steps[si].pubkeys.iter().find(|&&k| k != a && idx.iter().any(|&f| s.dir.files[f].0.contains(&prefix8(pool, k))))?;
+            if let SFile::Block(blk) = &mut s.dir.files[fa].1 {
+                if !matches!(blk.meta, SMeta::Link(_)) {
+                    return None;
+                }
+                blk.sigs = vec![SSig { label: a, signer: b, corrupt: false }, SSig { label: b, signer: b, corrupt: false }];
+            }
+            Some(("C02", format!("a link filed under one functionary carries only another functionary's valid signature (step {})", l.steps[si].name), true))
+        }
         "threshold_zero_nolinks" => {
             let l = layout_mut(&mut s.block)?;
             let si = r.below(l.steps.len());
@@ -257,8 +298,30 @@ fn inject(prop: &str, s: &mut Scenario, r: &mut Rng, pool: &[KeyInfo]) -> Option
                 let n = evidence_files(&s.dir, &l.steps[i].name).len();
                 n >= 2 && ((l.steps[i].threshold >= 2) == want_t2)
             })?;
-            let idx = evidence_files(&s.dir, &l.steps[si].name);
-            let fi = idx[r.below(idx.len())];
+            let mut idx = evidence_files(&s.dir, &l.steps[si].name);
+            // which link dissents matters for comparison strategies that do not look at every pair:
+            // sort by signer key id and pick first / last / middle deliberately
+            idx.sort_by_key(|&f| {
+                let short = &s.dir.files[f].0[l.steps[si].name.len() + 1..s.dir.files[f].0.len() - 5];
+                l.steps[si].pubkeys.iter().map(|&k| kid(pool, k)).find(|id| id.starts_with(short)).unwrap_or_default()
+            });
+            let fi = match r.below(4) {
+                0 => idx[0],
+                1 | 2 => idx[idx.len() - 1],
+                _ => idx[r.below(idx.len())],
+            };
+            // a 2-vs-2 split when there are four links
+            let also = if idx.len() >= 4 && r.chance(1, 2) { Some(idx[idx.len() - 2]) } else { None };
+            if let Some(f2) = also {
+                if let SFile::Block(b2) = &mut s.dir.files[f2].1 {
+                    if let SMeta::Link(lk2) = &mut b2.meta {
+                        if matches!(kind, "disagree_product_digest" | "pre_disagree") && !lk2.prods.is_empty() {
+                            let n = lk2.prods.len();
+                            lk2.prods[n - 1].1 = 21;
+                        }
+                    }
+                }
+            }
             if let SFile::Block(b) = &mut s.dir.files[fi].1 {
                 if let SMeta::Link(lk) = &mut b.meta {
                     match kind {
@@ -462,7 +525,7 @@ pub fn run(cfg: &Cfg, prop: &str) {
             _ => r.below(2),
         };
         let allow_insp = matches!(prop, "C08") || r.chance(1, 4);
-        let mut g = Gen { r: &mut r, pool: &pool, insp_counter, force_delegate: prop == "C15" };
+        let mut g = Gen { r: &mut r, pool: &pool, insp_counter, force_delegate: prop == "C15", multi_party: prop == "C07" && i % 3 != 0 };
         let mut s = g.valid(depth, allow_insp);
         insp_counter = g.insp_counter;
         if prop == "C08" {
